@@ -5,6 +5,7 @@ import (
 	"go/ast"
 	"go/constant"
 	"go/token"
+	"go/types"
 	"sort"
 	"strings"
 
@@ -175,22 +176,39 @@ func c11BareKeys(c *Ctx) {
 	c.Fn(FuncName(fn))
 	// keywords tested in parseObjectCons
 	var keywords []string
-	ast.Inspect(poc.Body, func(n ast.Node) bool {
-		call, ok := n.(*ast.CallExpr)
-		if !ok {
-			return true
-		}
-		sel, ok := call.Fun.(*ast.SelectorExpr)
-		if !ok || sel.Sel.Name != "TokenMatches" {
-			return true
-		}
-		if id, ok := sel.X.(*ast.Ident); ok {
-			if kw := keywordSpelling(c, ppkg, id); kw != "" {
-				keywords = append(keywords, kw)
+	_ = poc
+	// (from SSA: TokenMatches calls on a package-level Keyword in parseObjectCons and the parser
+	// helpers it calls)
+	if pocFn := c.P.LookupFunc("hclsyntax", "parser.parseObjectCons"); pocFn != nil {
+		seenKw := map[string]bool{}
+		for _, f := range append([]*ssa.Function{pocFn}, moduleCallees(pocFn, 1, map[*ssa.Function]bool{})...) {
+			if f != pocFn && (fnPkg(f) != fnPkg(pocFn) || f.Signature.Recv() == nil || len(f.Params) == 0 || f.Name() == "ParseExpression" || strings.HasPrefix(f.Name(), "parse") || strings.HasPrefix(f.Name(), "finish")) {
+				continue // only small helpers of the parser, not the sub-parsers it delegates to
+			}
+			for _, b := range f.Blocks {
+				for _, ins := range b.Instrs {
+					call, ok := ins.(*ssa.Call)
+					if !ok || call.Call.StaticCallee() == nil || call.Call.StaticCallee().Name() != "TokenMatches" || len(call.Call.Args) == 0 {
+						continue
+					}
+					var g *ssa.Global
+					switch x := call.Call.Args[0].(type) {
+					case *ssa.UnOp:
+						g, _ = x.X.(*ssa.Global)
+					case *ssa.Global:
+						g = x
+					}
+					if g == nil || g.Object() == nil {
+						continue
+					}
+					if kw := keywordSpellingObj(ppkg, g.Object()); kw != "" && !seenKw[kw] {
+						seenKw[kw] = true
+						keywords = append(keywords, kw)
+					}
+				}
 			}
 		}
-		return true
-	})
+	}
 	c.Floor("barekey parser keywords", len(keywords), 1, "for")
 	// bare identifier emissions whose bytes come from a non-constant string
 	n := 0
@@ -355,6 +373,10 @@ func keywordSpelling(c *Ctx, pkg *packages.Package, id *ast.Ident) string {
 	if obj == nil {
 		return ""
 	}
+	return keywordSpellingObj(pkg, obj)
+}
+
+func keywordSpellingObj(pkg *packages.Package, obj types.Object) string {
 	for _, f := range pkg.Syntax {
 		for _, d := range f.Decls {
 			gd, ok := d.(*ast.GenDecl)
